@@ -17,7 +17,7 @@ theorem optLenTable_matches_rfc : Generated.lenGroups = Spec.lenGroups := lenGro
 
 /-- (P1) M = S: for every framing and **every** byte string, libcoap's decoding algorithm accepts
 iff the RFC grammar does, and then yields the same type, code, message id, token, options, payload.
-(`toOption` maps both "return 0" and a read past the message to "not accepted".) -/
+(`toOption` maps "return 0" to "not accepted"; by `parse_never_oob` the third result never occurs.) -/
 theorem parse_eq_spec (p : Proto) (bs : Bytes) : (M.parse p bs).toOption = Spec.decode p bs := by
   cases p
   · exact parse_udp_eq bs
@@ -39,29 +39,14 @@ theorem accepted_only_if_wellformed (p : Proto) (bs : Bytes) (m : Msg) (h : M.pa
     Spec.decode p bs = some m := by
   rw [← parse_eq_spec, h]; rfl
 
-/-- the option loop (and therefore the whole decoder) never reads outside the message it was given -/
+/-- the decoder never reads outside the message it was given: no input drives the transcribed
+algorithm to an out-of-range index (the model's reads are `bs[i]?` with `oob` on `none`).
+Since fix 14e688b this includes the extended-token-length bytes. -/
+theorem parse_never_oob (p : Proto) (bs : Bytes) : M.parse p bs ≠ R.oob := parse_ne_oob p bs
+
+/-- the option loop alone, for any starting point and any running option number -/
 theorem walk_never_oob (code fuel : Nat) (bs : Bytes) (maxOpt : Nat) :
-    walk code fuel bs maxOpt ≠ R.oob := by
-  induction fuel generalizing bs maxOpt with
-  | zero => simp [walk]
-  | succ fuel ih =>
-    rcases bs with _ | ⟨b, r0⟩
-    · simp [walk]
-    · by_cases hff : b = 0xFF
-      · simp [walk, hff]
-      · rw [walk_succ_cons _ _ _ _ _ hff]
-        cases hO : optSpec b r0 with
-        | oob => exact absurd hO (optSpec_ne_oob b r0)
-        | rej => simp
-        | ok p =>
-          simp only []
-          split
-          · simp
-          · have := ih (List.drop p.size (b :: r0)) ((maxOpt + p.delta) % 65536)
-            cases hw : walk code fuel (List.drop p.size (b :: r0)) ((maxOpt + p.delta) % 65536) with
-            | oob => exact absurd hw this
-            | rej => simp
-            | ok v => simp
+    walk code fuel bs maxOpt ≠ R.oob := walk_ne_oob code fuel bs maxOpt
 
 /-! ### the clauses named in the property statement (about S, hence by `parse_eq_spec` about M) -/
 
